@@ -12,15 +12,47 @@ import (
 	"github.com/aergoio/aergo/v2/pkg/trie"
 )
 
-// Universe: 32-byte keys chosen to collide on long prefixes. Key i differs from
-// the all-zero key first at bit Bits[i] (bit 0 = most significant bit).
-var Bits = []int{-1, 255, 252, 251, 8, 4, 3, 1, 0}
+// Universe: 32-byte keys chosen to collide on long prefixes. Universe key u
+// differs from the all-zero key first at bit ubits[u] (bit 0 = most significant
+// bit). L* keys live in the last byte (two adjacent 4-bit node batches at the
+// bottom of the tree), b* keys split near the top.
+var ubits = []int{-1, 255, 254, 252, 251, 250, 248, 8, 4, 3, 1, 0}
+var unames = []string{"z", "L01", "L02", "L08", "L10", "L20", "L80", "b8", "b4", "b3", "b1", "b0"}
 
-var Names = []string{"z", "b255", "b252", "b251", "b8", "b4", "b3", "b1", "b0"}
+// Sel maps content index -> universe index; all of Key/Names/Content work on
+// the selected keys. It must be ascending (universe order is ascending byte order).
+var Sel = []int{0, 1, 2, 3, 4, 5, 6, 7, 8, 9, 10, 11}
+var Names = append([]string{}, unames...)
+
+// Use selects the key set (ascending universe indexes).
+func Use(sel ...int) {
+	Sel = append([]int{}, sel...)
+	Names = Names[:0]
+	for _, u := range sel {
+		Names = append(Names, unames[u])
+	}
+}
+
+// Universe index constants.
+const (
+	Z = iota
+	L01
+	L02
+	L08
+	L10
+	L20
+	L80
+	B8
+	B4
+	B3
+	B1
+	B0
+	NU
+)
 
 func Key(i int) []byte {
 	k := make([]byte, 32)
-	if b := Bits[i]; b >= 0 {
+	if b := ubits[Sel[i]]; b >= 0 {
 		k[b/8] |= 1 << uint(7-b%8)
 	}
 	return k
